@@ -363,9 +363,18 @@ func runHeapPerms(c *core.Ctx, j int) {
 		if count%64 == 1 {
 			c.Begin(name, "FromJSON", string(data))
 		}
-		if err := js.FromJSON(data); err != nil {
+		var err error
+		switch count % 4 {
+		case 1:
+			err = js.UnmarshalJSON(data) // (the hooks encoding/json calls are entry points of their own)
+		case 2:
+			err = json.Unmarshal(data, js)
+		default:
+			err = js.FromJSON(data)
+		}
+		if err != nil {
 			c.Begin(name, "FromJSON", string(data))
-			c.Fail("fromjson", "error", "%s.FromJSON(%s) returned %v", name, data, err)
+			c.Fail("fromjson", "error", "%s.FromJSON/UnmarshalJSON(%s) returned %v", name, data, err)
 		}
 		want := append([]int(nil), arr...)
 		if count%3 == 0 { // a single push after the load must find a sound heap too
